@@ -74,6 +74,7 @@ class Lab:
         self.odb = {s: (LocalHashFileDB if s in LOCAL else HashFileDB)(self.fs, os.path.join(root, s), state=self.state, hash_name=a)
                     for s, a in ALG.items()}
         self.tick = 1_600_000_000_000_000_000
+        self.saved_idx = {}
 
     def path(self, p):
         return os.path.join(self.data, FILES[p])
@@ -108,6 +109,11 @@ class Lab:
                 raise AssertionError(f"transfer failed: {res.failed}")
         elif how == "save":
             idx = imd5(ibuild(self.ws, self.fs), state=self.state, name=alg)
+            isave(idx, odb=odb)
+            self.saved_idx[s] = idx
+        elif how == "resave":
+            # the index saved earlier, with the hashes it recorded then, hashed and saved again
+            idx = imd5(self.saved_idx[s], state=self.state, name=alg)
             isave(idx, odb=odb)
         else:
             raise AssertionError(how)
@@ -169,6 +175,10 @@ def run_trace(case):
                 lab.add(a["s"], a["how"])
             elif a["op"] == "Migrate":
                 lab.migrate(a["s"], a["t"])
+            elif a["op"] == "Resave":
+                if a["s"] not in lab.saved_idx:
+                    continue
+                lab.add(a["s"], "resave")
             events.append({"act": a, **lab.observe()})
         return {"init": case["init"], "events": events}
     finally:
@@ -227,6 +237,14 @@ def directed_cases():
                        {"op": "Edit", "p": "q", "c": "crlf", "how": "rewrite"}, {"op": "Add", "s": t, "how": "hardlink"},
                        {"op": "Migrate", "s": t, "t": "plain"}]
                 cases.append({"id": 100000 + n, "init": init, "ops": ops})
+                n += 1
+    # an index saved, a file edited (any way), the SAME index hashed and saved again
+    for s_ in ("cache", "legacy"):
+        for p_, c_ in (("p", "lf2"), ("q", "crlf"), ("p", "lfcr")):
+            for how in ("rewrite", "keep-mtime"):
+                ops = [{"op": "Add", "s": s_, "how": "save"}, {"op": "Edit", "p": p_, "c": c_, "how": how}, {"op": "Resave", "s": s_},
+                       {"op": "Edit", "p": p_, "c": "bin", "how": how}, {"op": "Resave", "s": s_}]
+                cases.append({"id": 5000 + n, "init": {"p": "lf", "q": "bin"}, "ops": ops})
                 n += 1
     return cases
 
